@@ -1,11 +1,13 @@
 (* Extraction of the session-ticket / resumption models for the C16 correspondence runner.
    Directives used: those of ExtrOcamlBasic only; nat, positive, N stay Coq's inductive types. *)
 From Coq Require Import Extraction ExtrOcamlBasic List NArith.
-From GmsmVerif Require Import Lib.Outcome Gen.TLSSuites Resume.LruModel Resume.TicketModel Resume.ResumeModel.
+From GmsmVerif Require Import Lib.Outcome Gen.TLSSuites Resume.LruModel Resume.TicketModel Resume.ResumeModel
+  Agree.KeyModel Agree.WireSpec.
 Extraction Language OCaml.
 Extraction "resume_model.ml"
   marshal unmarshal mkSS
   lru_new lru_run LPut LGet l_q l_m l_cap
   hrun_term hinit decrypt_term seal term_mac term_junk mkT mkSt mkS mkC
   h_log h_cache h_srv r_cls r_vers r_suite r_ms r_offer r_stored tk_iv tk_tag
-  defaultCipherSuites.
+  defaultCipherSuites
+  lookup_row gm_key_block.
